@@ -154,7 +154,36 @@ def systematic_groups(rng):
     for kind in G.MANAGER_KINDS:
         for tz in ('tz1', 'tz2', 'tz3', 'tz4'):
             out.append({'branch': G.rand_block_hash(rng), 'contents': [G.rand_content(rng, kind, source=G.rand_pkh(rng, (tz,)))]})
+    # values around Unit x entrypoints around default, all in ONE shape of content so that a wrongly elided argument collides
+    # with the plain-Unit group (same header fields, same destination)
+    import copy
+    base = G.rand_content(rng, 'transaction')
+    branch = G.rand_block_hash(rng)
+    for ep in ('default', 'root', 'stake', 'Unit'):
+        for v in G.UNITISH:
+            c = copy.deepcopy(base)
+            c['parameters'] = {'entrypoint': ep, 'value': copy.deepcopy(v)}
+            out.append({'branch': branch, 'contents': [c]})
+    c = copy.deepcopy(base)
+    c.pop('parameters', None)
+    out.append({'branch': branch, 'contents': [c]})
     return out
+
+
+def spelling_groups(rng):
+    """Unit written with empty args/annots lists (non-canonical JSON spelling of the same expression)"""
+    import copy
+    out = []
+    for ep in ('default', 'root', 'x'):
+        for v in G.UNIT_SPELLINGS:
+            c = G.rand_content(rng, 'transaction')
+            c['parameters'] = {'entrypoint': ep, 'value': copy.deepcopy(v)}
+            out.append({'branch': G.rand_block_hash(rng), 'contents': [c]})
+    return out
+
+
+def is_unit_spelling(g) -> bool:
+    return any(c['kind'] == 'transaction' and c.get('parameters') and c['parameters']['value'] in G.UNIT_SPELLINGS for c in g['contents'])
 
 
 def malformed_variants(rng, g):
@@ -166,6 +195,26 @@ def malformed_variants(rng, g):
                                'value': {'prim': 'Unit'}}
             return g
     return None
+
+
+def check_has_parameters(ctx, groups):
+    """forge.py has_parameters (JSON-level) vs Ops.has_parameters_json on (entrypoint, forged value, value == {'prim': 'Unit'})"""
+    from pytezos.operation.forge import has_parameters
+    cases, seen = [], set()
+    for g in groups:
+        for c in g['contents']:
+            if c['kind'] != 'transaction':
+                continue
+            p = c.get('parameters')
+            key = json.dumps(p, sort_keys=True)
+            if key in seen or len(cases) >= 400:
+                continue
+            seen.add(key)
+            lit = 'None' if not p else f"(Some ({chex(p['entrypoint'].encode())}, {chex(mich(p['value']))}, {lib.cbool(p['value'] == {'prim': 'Unit'})}))"
+            cases.append((lit, lib.cbool(bool(has_parameters(c)))))
+    bad = ctx.coq_mismatches('haspar', IMPORTS, 'has_parameters_json', 'Bool.eqb', 'option (bytes * bytes * bool)', 'bool', cases)
+    ctx.extra['has_parameters_cases'] = len(cases)
+    return [{'table': 'has_parameters', 'disagreements': len(bad), 'first': cases[bad[0]][0][:300]}] if bad else []
 
 
 def mutate_bytes(rng, raw: bytes) -> bytes:
@@ -256,6 +305,7 @@ def run(ctx: lib.Ctx) -> None:
     for name, doc in recorded:
         groups.append(('recorded:' + name, {'branch': doc['branch'], 'contents': [strip_meta(c) for c in doc['contents']]}))
     groups += [('systematic', g) for g in systematic_groups(rng)]
+    groups += [('unit-spelling', g) for g in spelling_groups(rng)]
     n_total = ctx.n(800, 8000)
     while len(groups) < n_total:
         g = gen_group(rng)
@@ -265,7 +315,7 @@ def run(ctx: lib.Ctx) -> None:
             if m:
                 groups.append(('overlong-entrypoint', m))
 
-    cases, meta = [], []
+    cases, meta, spelled_obs = [], [], []
     seen = {}
     reported = 0
     for origin, g in groups:
@@ -281,8 +331,12 @@ def run(ctx: lib.Ctx) -> None:
                 ctx.violation(f'forge_operation_group raised {type(raw).__name__}: {raw} on a well-formed group', replay_doc(g, None), found=True)
             continue
         wfx = wf_expected(g)
-        cases.append((c_group(g), f'({chex(raw)}, true, {lib.cbool(wfx)}, {lib.cbool(wfx)})'))
-        meta.append((origin, g, raw))
+        spelled = origin == 'unit-spelling'
+        if not spelled:   # the model takes canonical Micheline (value = forged bytes); spellings go through (B) and has_parameters_json
+            cases.append((c_group(g), f'({chex(raw)}, true, {lib.cbool(wfx)}, {lib.cbool(wfx)})'))
+            meta.append((origin, g, raw))
+        else:
+            spelled_obs.append((g, raw))
         # ---- (B) independent decode + collision check
         why = None
         try:
@@ -305,16 +359,19 @@ def run(ctx: lib.Ctx) -> None:
             h = G.b58o(G.blake2b(raw + sig))
             if h != origin.split(':', 1)[1]:
                 why = f'recorded mainnet operation: hash of forged bytes + signature is {h}, recorded {origin.split(":", 1)[1]}'
-        if why and wfx and reported < 3:
+        if why and wfx and spelled and ctx.finding('unit-spelled-with-empty-list') is not None:
+            ctx.known_hit(ctx.finding('unit-spelled-with-empty-list'))
+        elif why and wfx and reported < 3:
             reported += 1
             ctx.violation(why, replay_doc(g, raw), found=True)
     ctx.extra['recorded_mainnet_groups'] = [n for n, _ in recorded]
 
     fut_mal = pool2.submit(malformed_stream, ctx, [m[2] for m in meta])
+    fut_hp = pool.submit(check_has_parameters, ctx, [g for _, g, _ in meta] + [g for g, _ in spelled_obs])
     bad = ctx.coq_mismatches('groups', IMPORTS, 'check_group', 'check_eqb', 'group', 'bytes * bool * bool * bool', cases, shard=ctx.n(70, 120))
     fut_mal.result()
     pool2.shutdown()
-    problems = fut_tables.result()
+    problems = fut_tables.result() + fut_hp.result()
     pool.shutdown()
     if reported == 0 and (bad or problems):
         rep = {'correspondence': 'C06/forge_operation_group vs Codec.Ops.forge_operation_group (= enc_group)', 'disagreements': len(bad),
